@@ -270,6 +270,7 @@ pub struct RecvTruth {
     /// an EOF announced a size other than the file's: the script plays an untruthful sender,
     /// the oracles that presuppose a truthful one do not apply from then on
     pub untruthful: bool,
+    pub cancel_end_checked: bool,
 }
 
 pub struct RecvCase {
@@ -696,6 +697,20 @@ impl RecvCase {
                     // deferred: no unsolicited NAK before EOF (prompts are tagged by the generator)
                     self.bad(out, viol, "C08", "deferred_quiet", format!("NAK before EOF under the deferred procedure: {}", pdu_repr(p)));
                 }
+            }
+        }
+        // --- C10: an unacknowledged receiver with closure that cancels must tell the sender
+        // (a Finished PDU) before it ends; ending by Abandon is the only exception
+        if self.cfg.mode == TransmissionMode::Unacknowledged
+            && self.truth.closure
+            && field("st") == "Terminated"
+            && field("rs") == "Cancelled"
+            && self.first_fin_ms.is_none()
+            && !self.truth.cancel_end_checked
+        {
+            self.truth.cancel_end_checked = true;
+            if !inds.iter().any(|i| matches!(i, Indication::Abandon(_))) && t[1] != "abandon" {
+                self.bad(out, viol, "C10", "cancel_closure_finished", "cancelled with closure requested but terminated without ever sending the Finished PDU".into());
             }
         }
         // --- C08: a 0-0 marker is only ever queued while the metadata is missing
